@@ -148,8 +148,17 @@ func (srv *Srv) flush(req *SrvReq) {
 	conn.Lock()
 	r := conn.reqs[tag]
 	if r != nil {
+		// flushes that are already waiting for this Tflush
+		own := req.flushreq
 		req.flushreq = r.flushreq
 		r.flushreq = req
+		// keep them: they are answered right after this one
+		for own != nil {
+			next := own.flushreq
+			own.flushreq = req.flushreq
+			req.flushreq = own
+			own = next
+		}
 	}
 	conn.Unlock()
 
